@@ -32,6 +32,9 @@ ASSUMPTIONS = ["decorator/with arguments are compile-time literals of the direct
                "PostParseErrors, outside the model)", "LP64"]
 
 HERE = os.path.dirname(os.path.abspath(__file__))
+# model variant: 0 = the code as it is (value-less directive strings are stored as None);
+# flip to 1 when proposed_fixes/C41-valueless_directive_string_parsed_to_None.diff is applied to /repo
+STRICT = int(os.environ.get("C41_STRICT", "0"))
 
 DUMP = r'''
 import sys, json
@@ -123,8 +126,8 @@ Definition g_names : list str := map fst g_defaults.
 Definition g_py_int := py_int g_digit.
 Definition g_parse_value (codec : list (str * N)) :=
   parse_directive_value g_types g_digit (codec_from_table codec).
-Definition g_parse_list (codec : list (str * N)) :=
-  parse_directive_list g_types g_names g_digit (codec_from_table codec).
+Definition g_parse_list (strict : bool) (codec : list (str * N)) :=
+  parse_directive_list g_types g_names g_digit (codec_from_table codec) strict.
 Definition g_scope_ok := scope_ok g_scopes.
 Definition g_visit_module := visit_module g_scopes g_immediate g_non_inherited g_defaults.
 """
@@ -320,7 +323,8 @@ ERR_OF_EXC = [("EBadBool", "ValueError", r"^(.*) directive must be set to True o
               ("EBadInt", "ValueError", r"^(.*) directive must be set to an integer, got "),
               ("EBadEnum", "ValueError", r"^(.*) directive must be one of \("),
               ("EExpectedEq", "ValueError", r'^Expected "=" in option "(.*)"$'),
-              ("EUnknown", "ValueError", r'^Unknown option: "(.*)"$')]
+              ("EUnknown", "ValueError", r'^Unknown option: "(.*)"$'),
+              ("ENotSettable", "ValueError", r'^(.*) directive cannot be set from a string$')]
 
 
 def impl_outcome(r):
@@ -512,7 +516,7 @@ def run_parse(ctx, T):
         codec = ";".join(sorted({"%s=%d" % (enc(t), codec_class(t)) for t in texts if t and codec_class(t)})) or "-"
         if c["f"] == "list":
             cur = enc_dict([(k, untag(v)) for k, v in c["cur"]]) if c["cur"] else "-"
-            mq.append("pl %d %d %s %s %s" % (c["relaxed"], c["ignore"], cur, enc(c["s"]), codec))
+            mq.append("pl %d %d %d %s %s %s" % (STRICT, c["relaxed"], c["ignore"], cur, enc(c["s"]), codec))
         else:
             mq.append("pv %d %s %s %s" % (c["relaxed"], enc(c["name"]), enc(c["s"]), codec))
     mres = model.batch(mq)
@@ -585,7 +589,7 @@ def _cstr():
 def gen_tree(rng, depth, ctxkind, counter, budget, allow_x=True):
     """children list for a body of kind ctxkind ('M' module, 'F' function, 'C' class/cdef class)"""
     out = []
-    n = rng.randrange(1, 4) if depth < 3 else 1
+    n = rng.randrange(6, 10) if depth == 0 else (rng.randrange(2, 5) if depth < 3 else rng.randrange(1, 3))
     for _ in range(n):
         if budget[0] <= 0:
             break
@@ -740,7 +744,7 @@ CSTR_OPTS = [("bytes", ""), ("bytearray", ""), ("str", "utf8"), ("str", "ascii")
 
 def gen_program(ctx, idx, T):
     rng = ctx.rng
-    counter, budget = [0], [rng.randrange(14, 30)]
+    counter, budget = [0], [rng.randrange(70, 110)]
     body = gen_tree(rng, 0, "M", counter, budget)
     options, header = {}, {}
     for d in SEM:
@@ -761,7 +765,8 @@ def gen_program(ctx, idx, T):
     rng.shuffle(hitems)
     cut = rng.randrange(len(hitems) + 1)
     hlines = [x for x in (", ".join(hitems[:cut]), ",".join(hitems[cut:])) if x]
-    L = ["# cython: %s" % h for h in hlines] + [PRELUDE]
+    # two filler lines: PEP 263 reads "c_string_encoding=utf8" in the first two lines as a source-encoding cookie
+    L = ["# generated by props/C41.py", "#"] + ["# cython: %s" % h for h in hlines] + [PRELUDE]
     emit(body, 0, "M", L, rng)
     return {"name": "c41_n%d" % idx, "source": "\n".join(L) + "\n", "options": options, "header_lines": hlines, "body": body}
 
@@ -769,7 +774,7 @@ def gen_program(ctx, idx, T):
 def run_nesting(ctx, T):
     quick = ctx.tier == "quick"
     model = ctx.model("directives")
-    progs = [gen_program(ctx, i, T) for i in range(5 if quick else 48)]
+    progs = [gen_program(ctx, i, T) for i in range(3 if quick else 24)]
     wd = os.path.join(ctx.workdir, "nest")
     # command-line/cythonize options arrive as already-parsed values; enum/encoding options go through the same
     # normalisation as `cython -X` (parse_directive_list with relaxed_bool) in the oracle and in the model
@@ -794,7 +799,7 @@ def run_nesting(ctx, T):
         # ---- model: header text through the model's parse_directive_list, then visit_module
         hdr = {}
         for h in p["header_lines"]:
-            ml = model.batch(["pl 0 1 - %s -" % enc(h)])[0]
+            ml = model.batch(["pl %d 0 1 - %s -" % (STRICT, enc(h))])[0]
             if not ml.startswith("OK "):
                 ctx.corr_break("directives:header-parse", inp, h, ml)
             else:
@@ -878,7 +883,114 @@ def run_nesting(ctx, T):
                         ctx.fail("effective_value_always_allow_keywords", dict(pin, source=p["source"]), o, {"always_allow_keywords": env_f["always_allow_keywords"]})
 
 
+# ---------------------------------------------------------------- scope legality, (directive, scope) pairs
+COMPILE_WORKER = r"""
+import sys, os, json, io
+import pyload; pyload.install()
+from Cython.Compiler import Main, Options
+pyload.assert_sources()
+out = []
+for c in json.load(sys.stdin):
+    src = os.path.join(os.getcwd(), c["name"] + ".pyx")
+    open(src, "w").write(c["source"])
+    d = dict(Options.get_directive_defaults()); d["language_level"] = 3
+    opts = Main.CompilationOptions(Main.default_options, compiler_directives=d, output_file=src[:-4] + ".c")
+    err, old = io.StringIO(), sys.stderr
+    res = {"ok": False, "crash": None}
+    try:
+        sys.stderr = err
+        try:
+            r = Main.compile(src, opts)
+            res["ok"] = r.num_errors == 0
+        finally:
+            sys.stderr = old
+    except BaseException as e:
+        res["crash"] = "%s: %s" % (type(e).__name__, e)
+    res["errors"] = err.getvalue()[-6000:]
+    out.append(res)
+print(json.dumps(out))
+"""
+
+CONTEXTS = [("module", "module"), ("function", "function"), ("class", "class"), ("cclass", "cclass"), ("with", "with statement")]
+
+
+def scope_program(T, d, context):
+    t = T["types"].get(d)
+    if t is None or t[0] == "TDefer":
+        return None
+    arg = {"TBool": "(True)", "TStr": "('x')", "TEncoding": "('utf8')", "TInt": "(8)", "TNoValue": "", "TList": "('//x')"}.get(t[0])
+    if t[0] == "TEnum":
+        arg = "(%r)" % t[1][0]
+    if t[0] == "TCallCrash":
+        arg = {"type": "(cython.int)", "dict": "(x=cython.int)"}.get(t[1])
+    if arg is None:
+        return None
+    if context == "module":
+        if d not in T["names"] or t[0] in ("TCallCrash", "TInt"):
+            return None
+        val = {"TBool": "True", "TStr": "x", "TEncoding": "utf8", "TNoValue": "True", "TList": "//x"}.get(t[0]) or (t[0] == "TEnum" and t[1][0])
+        return "# cython: %s=%s\ndef f(): pass\n" % (d, val)
+    use = "cython.%s%s" % (d, arg)
+    body = {"function": "@%s\ndef f(x): pass\n", "class": "@%s\nclass A: pass\n", "cclass": "@%s\ncdef class A: pass\n",
+            "with": "with %s:\n    pass\n"}[context] % use
+    return "cimport cython\n" + body
+
+
+def run_scopes(ctx, T):
+    quick = ctx.tier == "quick"
+    model = ctx.model("directives")
+    # (np_pythran is refused earlier with "can only be used in C++ mode": not observable in a C build)
+    pairs = [(d, c, sc) for d in T["scopes"] if d != "np_pythran" for c, sc in CONTEXTS]
+    pairs += [(d, c, sc) for d in ("cdivision", "boundscheck", "binding", "nonecheck", "profile") for c, sc in CONTEXTS]
+    cases = []
+    for d, c, sc in pairs:
+        src = scope_program(T, d, c)
+        if src is not None:
+            cases.append((d, c, sc, src))
+    if quick:
+        illegal = [x for x in cases if x[2] not in T["scopes"].get(x[0], [x[2]])]
+        legal = [x for x in cases if x not in illegal]
+        cases = ctx.rng.sample(illegal, min(21, len(illegal))) + ctx.rng.sample(legal, min(7, len(legal)))
+    NW = 7
+    chunks = [cases[i::NW] for i in range(NW)]
+    import concurrent.futures as cf
+    def work(j):
+        return cybuild.run_script(COMPILE_WORKER, os.path.join(ctx.workdir, "scopes%d" % j),
+                                  stdin_obj=[{"name": "s%d_%d" % (j, i), "source": x[3]} for i, x in enumerate(chunks[j])],
+                                  name="compile_worker.py")
+    with cf.ThreadPoolExecutor(max_workers=NW) as ex:
+        results = list(ex.map(work, range(NW)))
+    mres = iter(model.batch(["sc %s %s" % (enc(x[0]), enc(x[2])) for ch in chunks for x in ch]))
+    for ch, r in zip(chunks, results):
+        if r["json"] is None or len(r["json"]) != len(ch):
+            ctx.corr_break("directives:compile-worker", "worker", (r["err"] or r["out"])[-600:], "one result per case")
+            for _ in ch: next(mres)
+            continue
+        for (d, c, sc, src), res in zip(ch, r["json"]):
+            m_ok = next(mres) == "1"
+            inp = {"directive": d, "scope": sc, "source": src}
+            ctx.case("scope-legality/" + c, inp, sig=("scope", d, c))
+            msg = "The %s compiler directive is not allowed in %s scope" % (d, sc)
+            rejected = msg in (res["errors"] or "") or msg in (res.get("crash") or "")
+            if rejected and res["ok"]:
+                ctx.corr_break("directives:scope error reported but compilation succeeded", inp, res, "failure")
+            if rejected == m_ok:
+                ctx.corr_break("directives:scope_ok", inp, {"rejected": rejected, "errors": res["errors"][-300:]}, {"scope_ok": m_ok})
+            legal = T["scopes"].get(d)
+            exp_reject = bool(legal) and sc not in legal
+            if (exp_reject and res["ok"]) or (not exp_reject and rejected):
+                ctx.fail("scope_violation_not_rejected" if exp_reject else "legal_scope_rejected", inp,
+                         {"rejected": rejected, "ok": res["ok"], "errors": res["errors"][-300:]}, {"rejected": exp_reject})
+
+
 def run(ctx):
+    import time
     T = tables(ctx)
+    t0 = time.time()
     run_parse(ctx, T)
+    t1 = time.time()
+    run_scopes(ctx, T)
+    t2 = time.time()
     run_nesting(ctx, T)
+    ctx.note("phase wall seconds: coq+tables %.0f, parser %.0f, scope legality %.0f, nestings %.0f" % (
+        t0 - ctx.t0, t1 - t0, t2 - t1, time.time() - t2))
